@@ -191,6 +191,7 @@ func verifC07_inflight() {
 	vInstallRand().concrete = true
 	vGhostPoolMode(0)
 	vGhostPoolMonitor(true)
+	vGhostPoolDeterministic()
 	tA := vNewTransport(nil)
 	tA.endMode = vEndBlock
 	tA.holdAt = 1
